@@ -3,15 +3,16 @@
 # Runs quick checks against a scratch worktree of /repo that carries the seeded
 # change /verif/seeded/<name>/patch.diff; /repo itself is not touched.
 name="$1"; shift
-. /verif/env.sh
-wt=/tmp/mt/$name
-rm -rf "$wt"; mkdir -p /tmp/mt
+V=${VERIF_DIR:-/verif}
+. $V/env.sh
+wt=/tmp/mt${MT_SUFFIX}/$name
+rm -rf "$wt"; mkdir -p /tmp/mt${MT_SUFFIX}
 git -C /repo worktree add -q --detach "$wt" HEAD || exit 2
-trap 'git -C /repo worktree remove --force "$wt" 2>/dev/null; rm -rf "$wt" /tmp/mt-out/$name' EXIT INT TERM
-git -C "$wt" apply /verif/seeded/$name/patch.diff 2>/dev/null || { b=$(python3 -c "import json;print(json.load(open(\"/verif/seeded/$name/meta.json\"))[\"base_commit\"])"); echo "patch does not apply to HEAD: using base commit $b"; git -C "$wt" checkout -q $b && git -C "$wt" apply /verif/seeded/$name/patch.diff || { echo "patch does not apply"; exit 2; }; }
-cd /verif
+trap 'git -C /repo worktree remove --force "$wt" 2>/dev/null; rm -rf "$wt" /tmp/mt-out${MT_SUFFIX}/$name' EXIT INT TERM
+git -C "$wt" apply $V/seeded/$name/patch.diff 2>/dev/null || { b=$(python3 -c "import json;print(json.load(open(\"$V/seeded/$name/meta.json\"))[\"base_commit\"])"); echo "patch does not apply to HEAD: using base commit $b"; git -C "$wt" checkout -q $b && git -C "$wt" apply $V/seeded/$name/patch.diff || { echo "patch does not apply"; exit 2; }; }
+cd $V
 for p in "$@"; do
-  out=$(VERIF_REPO=$wt VERIF_OUT=/tmp/mt-out/$name ./bin/check "$p" --tier quick ${RUNS:+--runs $RUNS} 2>&1); rc=$?
+  out=$(VERIF_REPO=$wt VERIF_OUT=/tmp/mt-out${MT_SUFFIX}/$name ./bin/check "$p" --tier quick ${RUNS:+--runs $RUNS} 2>&1); rc=$?
   echo "=== $name $p exit=$rc"
   echo "$out" | grep -v '^KNOWN-FINDING' | cut -c1-600 | tail -${TAIL:-6}
 done
